@@ -985,6 +985,11 @@ func (h *headReader) Read(ctx context.Context, out frame.Frame) (n int, err erro
 	if h.n <= 0 {
 		return 0, sliceio.EOF
 	}
+	if out.Len() > h.n {
+		// Ask for no more rows than remain: rows beyond them would be
+		// written into the caller's frame but not reported.
+		out = out.Slice(0, h.n)
+	}
 	n, err = h.reader.Read(ctx, out)
 	h.n -= n
 	if h.n < 0 {
